@@ -84,6 +84,27 @@ Theorem C06_like_endswith_param : forall x s, like_of (like_param_endswith x) s 
 Proof. exact like_param_endswith_ok. Qed.
 Print Assumptions C06_like_endswith_param.
 
+(* PostgreSQL / MySQL (documentation): LIKE without an ESCAPE clause uses the backslash as escape character.  The parameter
+   branch always carries ESCAPE '!'; the constant branch holds on the complement of the known finding (no backslash) *)
+Theorem C06_like_contains_const_bs_except_known : forall v s, mem_char 92 v = false ->
+  (like_of_bs (like_const_contains v) s = true <-> is_infix v s).
+Proof. exact like_const_contains_bs. Qed.
+Print Assumptions C06_like_contains_const_bs_except_known.
+Theorem C06_like_startswith_const_bs_except_known : forall v s, mem_char 92 v = false ->
+  (like_of_bs (like_const_startswith v) s = true <-> is_prefix v s).
+Proof. exact like_const_startswith_bs. Qed.
+Print Assumptions C06_like_startswith_const_bs_except_known.
+Theorem C06_like_endswith_const_bs_except_known : forall v s, mem_char 92 v = false ->
+  (like_of_bs (like_const_endswith v) s = true <-> is_suffix v s).
+Proof. exact like_const_endswith_bs. Qed.
+Print Assumptions C06_like_endswith_const_bs_except_known.
+Theorem C06_like_param_bs : forall x s,
+  like_of_bs (like_param_contains x) s = like_of (like_param_contains x) s /\
+  like_of_bs (like_param_startswith x) s = like_of (like_param_startswith x) s /\
+  like_of_bs (like_param_endswith x) s = like_of (like_param_endswith x) s.
+Proof. exact like_param_bs. Qed.
+Print Assumptions C06_like_param_bs.
+
 (* (5) parameters: for every style, every occurrence list (repeated keys included) and every environment, the driver binds
    to each placeholder of the text, in text order, the value of that placeholder's own paramkey *)
 Theorem C06_params : forall (V : Type) (env : key -> V) st keys,
